@@ -93,7 +93,7 @@ func c09Exec(op string) string {
 	}
 	var ls []mxj.LeafNode
 	if noattr {
-		ls = mv.LeafNodes(true)
+		ls = mv.LeafNodes(mxj.NoAttributes) // the documented spelling of the option
 	} else {
 		ls = mv.LeafNodes()
 	}
@@ -106,7 +106,7 @@ func c09Exec(op string) string {
 	var lp []string
 	var lv []interface{}
 	if noattr {
-		lp, lv = mv.LeafPaths(true), mv.LeafValues(true)
+		lp, lv = mv.LeafPaths(mxj.NoAttributes), mv.LeafValues(mxj.NoAttributes)
 	} else {
 		lp, lv = mv.LeafPaths(), mv.LeafValues()
 	}
